@@ -467,3 +467,37 @@ def rule_partial_function_explicit(check, rule):
                                 witness='def make(*args, **kwargs): return partial(*args, **kwargs)\ndef wrapper(p, *args, **kwargs): return make(callee, '
                                         '*args, **kwargs)  -- sigtools.signature(wrapper) is (p, *rest, z=None) for callee(x, y, *rest, z)')
     check.floor(rule, 'partial function/count pairs in forward_signatures', n, 1)
+
+
+def rule_partial_binding_validated(check, rule):
+    """C19.R6 (D59): what discovery returns narrows parameter kinds -- a regular parameter of a forwarding wrapper comes out positional-only
+    when the callee has positional-only parameters -- and _mask lets a keyword named like a *positional-only* consumed parameter through to
+    **kwargs (D58).  Masking the discovered signature with what a partial object binds therefore accepts bindings the real function
+    rejects (partial(w, g, func=g) for w(func, *args, **kwargs)).  autoforwards_partial first lets plain retrieval of the partial object
+    itself -- the real parameter kinds -- decide whether the binding is possible, and falls back when it is not."""
+    import ast
+    from .index import norm
+    from .rules_escape import get_escape, _handler_covers
+    repo = check.repo
+    cg, es = get_escape(check)
+    fi = repo.func('_autoforwards:autoforwards_partial')
+    check.analysed(fi)
+    par = fi.params()[0][0]
+    masks = [c for c in ast.walk(fi.node) if isinstance(c, ast.Call) and norm(c.func).split('.')[-1] in ('_mask', 'mask')]
+    plain = [c for c in ast.walk(fi.node) if isinstance(c, ast.Call) and norm(c.func).endswith('_signatures.signature') and c.args
+             and norm(c.args[0]) == par]
+    key = 'partial-binding-validated'
+    st = '%s %s' % (fi.loc(), fi.key)
+    if not masks:
+        check.holds(rule, st, 'the discovered signature is not masked here', key=key, nontrivial=False)
+        return
+    ok = [c for c in plain if c.lineno < min(m.lineno for m in masks) and _handler_covers(es, fi, c, ['ValueError'])]
+    if ok:
+        check.holds(rule, '%s %s' % (fi.loc(ok[0]), fi.key), 'the binding is validated against the real parameters (plain retrieval of the partial object) '
+                    'before the discovered signature is masked', key=key)
+    else:
+        check.violation(rule, '%s %s' % (fi.loc(masks[0]), fi.key), 'the discovered signature, whose parameter kinds are narrowed, is masked with what the '
+                        'partial binds without the real parameters having had their say: a keyword naming a parameter that discovery made '
+                        'positional-only is let through to **kwargs', key=key,
+                        witness='def w(func, *args, **kwargs): return func(*args, **kwargs); def g(a, /, **kwargs): ...; '
+                                'sigtools.signature(partial(w, g, func=g)) returns a signature although no call of it succeeds')
